@@ -603,7 +603,8 @@ class FullConstructor(SafeConstructor):
                 if not unsafe and state:
                     for key in state.keys():
                         self.check_state_key(key)
-                instance.__dict__.update(state)
+                if state:
+                    instance.__dict__.update(state)
             elif state:
                 slotstate.update(state)
             for key, value in slotstate.items():
